@@ -3,8 +3,8 @@ CONSTANTS
   Clients <- TwoClients
   MaxExch = 3
   MaxDupReq = 0
-  MaxDupResp = 1
-  MaxInject = 1
+  MaxDupResp = 0
+  MaxInject = 0
   MaxTC = 0
   Thetas <- ThetasOne
   CtxCap = 1
